@@ -541,6 +541,18 @@ class Array:
     def __mod__(self, o):
         return self._bin(o, "mod")
 
+    def __rmod__(self, o):
+        # python int % symbolic integer with a declared finite domain
+        if isinstance(o, (int, _np.integer)) and self.a.ndim == 0 and _is_term(self.a[()]):
+            dom = cur().notes.get("int_domains", {}).get(self.a[()].get_id())
+            if dom:
+                t = self.a[()]
+                acc = z3.RealVal(int(o) % dom[-1])
+                for v in reversed(dom[:-1]):
+                    acc = z3.If(t == v, z3.RealVal(int(o) % v), acc)
+                return Array(simp(acc), int64)
+        return self._bin(o, "mod", True)
+
     def __neg__(self):
         return Array(_map(OPS.neg, _fcells(self)), _fdt(self))
 
@@ -1521,6 +1533,17 @@ def sym(name, shape=(), dt=None):
         nm = name + "_" + "_".join(str(i) for i in idx)
         out[idx] = OPS.var(nm) if hasattr(OPS, "var") else z3.Real(nm)
     return Array(out, dt)
+
+
+def sym_int(name, domain):
+    """A symbolic integer (0-d int64 array) ranging over a finite domain."""
+    c = cur()
+    v = z3.Real(name)
+    dom = sorted(int(d) for d in domain)
+    c.add_assume(z3.Or(*[v == d for d in dom]))
+    c.notes.setdefault("int_domains", {})[v.get_id()] = dom
+    c.notes.setdefault("int_domain_terms", []).append(v)
+    return Array(v, int64)
 
 
 def term(x):
